@@ -11,6 +11,22 @@ import (
 // case "pairs":  pairs TAB <list of rule texts>          obs: n*n matrix of IsHigherPriority(a_i, a_j) [+ !flags]
 // case "select": select TAB <list of rule texts>         obs: winner of GetDNSBasicRule ; winner of NewMatchingResult(...).GetBasicResult
 func featureRule(g *Gen) string {
+	if g.Chance(1, 14) {
+		// generic rules whose modifier counts differ by a chosen gap: k option / content-type modifiers against the
+		// five list modifiers ($domain with excluded entries only, $dnstype, $ctag, $client, $denyallow) plus j more
+		flags := []string{"script", "image", "font", "media", "third-party", "stylesheet", "match-case", "object", "~ping"}
+		lists := []string{"domain=~a.com", "dnstype=A", "ctag=device_pc", "client=Mom", "denyallow=b.com"}
+		Shuffle(g, flags)
+		var mods []string
+		if g.Bool() {
+			mods = append(mods, flags[:3+g.Intn(6)]...)
+		} else {
+			mods = append(mods, lists...)
+			mods = append(mods, flags[:g.Intn(4)]...)
+		}
+		Shuffle(g, mods)
+		return Pick(g, []string{"", "@@"}) + "||example.org^$" + strings.Join(mods, ",")
+	}
 	if g.Chance(1, 12) {
 		// a generic rule with many modifiers (up to 14) against rules that have little more than $domain: no number of
 		// modifiers makes up for the generic/specific rank
